@@ -80,6 +80,8 @@ def receiver_level(ctx, rng, n, pid):
                 ctx.known.append(known_defs["F9"]["line"]) if known_defs["F9"]["line"] not in ctx.known else None
             elif pid != "C08":       # C08 is about delay, not about the text
                 ctx.violation("property", c[len(rxlib.F9_MARK):].strip(), {"input": line, "tx": tx.describe()})
+        elif c and rxlib.f11_known(ctx, pid, tx, ev, [tx.H, b"NNNN"]):
+            pass
         elif c:
             if f2 and "F2" in known_defs:
                 ctx.known.append(known_defs["F2"]["line"]) if known_defs["F2"]["line"] not in ctx.known else None
@@ -129,6 +131,7 @@ def run(ctx):
     ctx.coverage["lone_trailer_at_end_of_input_ok"] = lone_ok
     ctx.coverage["reuse_after_reset_same_messages"] = rxlib.reset_reuse(ctx, rng.fork("reset"), 3 if quick else 20, lambda t: t.startswith("TM"), True, "messages")
     ctx.coverage["known_finding_F9_witness_reproduces"] = rxlib.run_f9_witness(ctx, "C02")
+    ctx.coverage["known_finding_F11_witness_reproduces"] = rxlib.run_f11_witness(ctx, "C02")
     insts = [i for i in asmlib.theorem_instances(rng.fork("instances"), 180 if quick else 6000) if i[0].startswith("C02")]
     inst_ok, inst_names = asmlib.check_instances(ctx, insts)
     ctx.coverage["theorem_instances_confirmed_on_impl"] = inst_ok
